@@ -553,7 +553,7 @@ class _FnAnalysis:
             base = self.ev(t.value, st)
             self.ev(t.slice, st)
             ind = ":" + t.value.attr if isinstance(t.value, ast.Attribute) and t.value.attr in ("iloc", "loc", "at", "iat", "values", "flat") else ""
-            self.emit("write", base, "A", desc_prefix + "setitem" + ind, node)
+            self.emit("write", base, "A", desc_prefix + "setitem" + ind + "[" + _index_kind(t.slice) + "]", node)
             # remember that the container now holds v (fresh containers holding views)
             root = t.value
             while isinstance(root, (ast.Subscript, ast.Attribute)) and not (isinstance(root, ast.Attribute) and self.is_self(root.value)):
@@ -1030,6 +1030,19 @@ class _FnAnalysis:
         if meth in FRESH_METHODS:
             return FRESH
         return join(FRESH, unknownify(join_all([recv] + allargs)))
+
+
+def _index_kind(idx):
+    """what selects the written cells: a boolean mask, a slice, or a key / position (part of the sink description)"""
+    parts = idx.elts if isinstance(idx, ast.Tuple) else [idx]
+    if any(isinstance(p, (ast.Compare, ast.BoolOp)) or (isinstance(p, ast.UnaryOp) and isinstance(p.op, (ast.Invert, ast.Not)))
+           or (isinstance(p, ast.BinOp) and isinstance(p.op, (ast.BitAnd, ast.BitOr))) or
+           (isinstance(p, ast.Call) and isinstance(p.func, ast.Attribute) and p.func.attr in ("isnull", "isna", "notnull", "notna", "isin"))
+           or (isinstance(p, ast.Call) and dotted(p.func) in ("np.isnan", "np.isinf", "np.isfinite", "pd.isnull", "pd.isna")) for p in parts):
+        return "mask"
+    if any(isinstance(p, ast.Slice) for p in parts):
+        return "slice"
+    return "key"
 
 
 def _is_data_like(v):
